@@ -52,6 +52,7 @@ var wOpNames = map[int]string{oMint: "mint", oSend: "send", oReceive: "receive",
 	oMeltAgain: "melt-again"}
 
 type wHist struct {
+	htlcNoNSigs int // SIG_ALL HTLC sends: 0 random, 1 never an n_sigs tag, 2 always n_sigs=1
 	w           *wWorld
 	sink        *Sink
 	prop        string // "C08" | "C17" | "C19"
@@ -757,6 +758,10 @@ func (h *wHist) OpSendHTLC(wi, mi int, amount uint64, fees bool, to int, withSig
 		tags = &nut11.P2PKTags{NSigs: 1, Pubkeys: []*btcec.PublicKey{h.wal(to).W.GetReceivePubkey()}}
 		if sigall {
 			tags.Sigflag = nut11.SIGALL
+			if h.htlcNoNSigs == 1 || (h.htlcNoNSigs == 0 && h.w.rng.Intn(2) == 0) {
+				// no n_sigs tag: the inputs need the preimage only, the outputs still one signature of a listed key
+				tags.NSigs = 0
+			}
 		}
 	}
 	body := h.sendBody(wl, m, 2, to, sigall, pre, true, func() (cashu.Proofs, error) { return wl.W.HTLCLockedProofs(amount, m.url, pre, tags, fees) })
@@ -807,6 +812,11 @@ func (h *wHist) OpRecvHTLC(wi, ti int, crashAt int) {
 	op := L(A(oRecvHTLC), A(int64(wi)), A(int64(ti)))
 	body := func() (any, error) {
 		a, err := wl.W.ReceiveHTLC(h.tokenOf(t), t.preimage)
+		if err != nil && !t.redeemed && (t.to == wi || t.to < 0) && wl.trusts(t.m) && crashAt == 0 &&
+			(strings.Contains(err.Error(), "signature") || strings.Contains(err.Error(), "preimage") || strings.Contains(err.Error(), "witness")) {
+			// C13: the witness the library's own helpers produce for the rightful receiver is always accepted
+			h.violate("helper-witness-rejected op=receive-htlc sigall="+fmt.Sprint(t.sigall), fmt.Sprintf("ReceiveHTLC by the wallet the lock is for, with the right preimage, was refused: %v", err), nil)
+		}
 		if err == nil {
 			t.redeemed = true
 			if !wl.trusts(t.m) {
